@@ -10,8 +10,8 @@ def shape_corrupt_tombstones_clear_trust : Bool := true
 def shape_markers_dropped_only_after_tomb_ok : Bool := true
 def shape_prefetch_publish_gated_on_prior : Bool := true
 def shape_tomb_write_before_state_write : Bool := true
-def shape_unreadable_tombstones_clear_trust : Bool := false
-def shape_unreadable_tombstones_use_empty_map : Bool := true
+def shape_unreadable_tombstones_clear_trust : Bool := true
+def shape_unreadable_tombstones_use_empty_map : Bool := false
 def state_file : String := "trust-anchor.db"
 def tombstone_file : String := "trust-anchor-tombstones.db"
 
